@@ -1,6 +1,7 @@
 SPECIFICATION Spec
 CONSTANTS
   Alphabet <- A12
+  Seeds <- NoSeed
   MaxLen = 6
 INVARIANT RefOrdered
 INVARIANT Emit
